@@ -23,7 +23,7 @@ CHECKS = {
    level="exploration", design="§3 C01",
    technique="deterministic simulation: full sdns chain + real resolver on fake clock over simulated network; signing authoritative world with path-wide response tampering; ground-truth resolver over the zone model as oracle",
    text="Seeded search over generated zone hierarchies (signed/unsigned/opt-out, algorithms 8/10/13/14/15, NSEC/NSEC3, wildcards, CNAME/DNAME, shared servers, expired signature windows), sequential client histories with DO/AD/CD mixes that re-ask names (cache routes), and 29 kinds of path-wide tampering of chosen resolution steps, or no trust anchor. Every CD=0 reply for a securely delegated name must be SERVFAIL or equal the model's answer; AD only where entitled and secure; tamperings of the question's own response must surface as SERVFAIL. Sampling, not proof.",
-   note="Trusts authsim (RFC 4034/4035/5155 answers, checked by the fault-free run: zero-tamper scenarios must reproduce ground truth) and miekg/dns signing. Names in NSEC3 opt-out spans are treated as unauthenticated. One open finding (extended error lost on composed SERVFAILs) and several fixed ones are listed in known_findings.json."),
+   note="Trusts authsim (RFC 4034/4035/5155 answers, checked by the fault-free run: zero-tamper scenarios must reproduce ground truth) and miekg/dns signing. Names in NSEC3 opt-out spans are treated as unauthenticated. Findings (all repaired) are listed in known_findings.json."),
  "C02": dict(
    level="exploration", design="§3 C02",
    technique="deterministic simulation: full chain + real resolver on fake clock; genuine signed NSEC/NSEC3 records substituted path-wide; zone model existence/type truth; upstream-free (synthesised) denials checked against delivered live proofs",
